@@ -1035,6 +1035,8 @@ func callgrindName(names map[string]int, name string) string {
 	if name == "" {
 		return ""
 	}
+	// A line break would split the position specification.
+	name = strings.NewReplacer("\r", " ", "\n", " ").Replace(name)
 	if id, ok := names[name]; ok {
 		return fmt.Sprintf("(%d)", id)
 	}
